@@ -86,9 +86,10 @@ ALL_NAMES = sorted(set(c15gen.CAN_SIMPLE + c15gen.DOIP_SIMPLE + [TABLE]))
 
 
 def vt(value: Any, is_complex: bool) -> Any:
-    """Hashable form of a value; an omitted element reads like an empty one."""
-    if value is None:
-        return () if is_complex else ""
+    """Hashable form of a value.  How an omitted value element or an empty complex value is
+    represented in `.value` is not prescribed: None, "", [] all read as "nothing given"."""
+    if value is None or len(value) == 0:
+        return ""
     if isinstance(value, (list, tuple)):
         return tuple(vt(x, isinstance(x, (list, tuple))) for x in value)
     return value
